@@ -1,7 +1,7 @@
 """C02 - recursive multi-knee detection terminates, is well-formed and self-similar."""
 import numpy as np
 
-from .. import gen, install, loops
+from .. import gen, install, loops, models
 from ..common import pick, shard_count
 
 META = {
@@ -52,28 +52,8 @@ def spec(get_knee, pts, t1, t2, gate=None):
     return sorted(out), depth
 
 
-LD = np.longdouble
-
-
 def smape_model(pt):
-    """Independent long-double endpoint-line SMAPE of a segment; (value, absolute tolerance) or None when the
-    float64 evaluation is ill-conditioned (y touching 0, where a 1e-17 residue is amplified by the eps guard)."""
-    x = np.asarray(pt[:, 0], dtype=LD)
-    y = np.asarray(pt[:, 1], dtype=LD)
-    if len(x) < 3 or x[0] == x[-1]:
-        return None
-    ymax, ymin = float(np.max(np.abs(y))), float(np.min(y))
-    if not (ymin >= 1e-3 * ymax and ymax > 0) or not np.all(np.isfinite(pt)):
-        return None
-    m = (y[0] - y[-1]) / (x[0] - x[-1])
-    b = y[0] - m * x[0]
-    yh = x * m + b
-    v = float(np.mean(2 * np.abs(yh - y) / (np.abs(y) + np.abs(yh) + LD(1e-16))))
-    gaps = np.diff(np.asarray(pt[:, 0], dtype=float))
-    if np.min(gaps) <= 0:
-        return None
-    xr = float(np.max(np.abs(x))) / float(np.min(gaps))
-    return v, 1e-6 * v + 256 * float(np.finfo(float).eps) * xr * (ymax / ymin)
+    return models.endpoint_line_cost(pt, 'smape')
 
 
 def setup(ctx, mods):
@@ -106,7 +86,9 @@ def setup(ctx, mods):
         ctx.check(okr, 'range', f'range:{det}.multi_knee',
                   f'multi-knee result is not a strictly increasing index array inside [{lo}, {n - 2}]: {res.tolist()[:40]}',
                   detector=det, t1=t1, t2=t2, n=n)
-        want, depth = spec(gk, pts, t1, t2, gate)
+        # "k is the detector's single-knee answer": the detector's public knee(), not whatever callable the wrapper handed in
+        single = mods[det].knee if det in DETECTORS else gk
+        want, depth = spec(single, pts, t1, t2, gate)
         LAST['depth'] = depth
         LAST['count'] = len(want)
         ctx.check(res.tolist() == want if res.ndim == 1 else False, 'recursion', f'recursion:{det}.multi_knee',
@@ -147,7 +129,7 @@ def cases(rng, tier, shard, nshards):
             if np.isfinite(v) and v > 0:
                 t1 = v
         c = {'points': pts, 'family': meta['family'], 'layout': lay, 'detector': det,
-             't1': t1, 't2': T2MIN[det] + int(rng.integers(0, 3))}
+             't1': t1, 't2': T2MIN[det] + (int(rng.integers(0, 3)) if rng.random() < 0.85 else int(rng.integers(3, 40)))}
         if rng.random() < 0.25 and len(pts) <= 120:     # history: another detector / thresholds on the SAME array
             d2 = pick(rng, DETECTORS)
             c['follow'] = {'detector': d2, 't1': float(10.0 ** rng.uniform(-4, -1)), 't2': T2MIN[d2] + int(rng.integers(0, 3))}
